@@ -1,6 +1,7 @@
 import SJ.Model.FloatFmt
 import SJ.Proofs.F64Round
 import SJ.Proofs.FloatFmt
+import SJ.Proofs.GoFloatFmt
 /-
 C18 — Floats are printed shortest-round-trip in ECMAScript format.
 -/
@@ -65,5 +66,24 @@ open SJ.F64Round SJ.F64 in
 theorem C18_inside_rounds (ex fr d : Nat) (k : Int) (hex : ex < 2047) (hfr : fr < 2 ^ 52) (hm : mantOf ex fr ≠ 0)
     (h : insideB (mantOf ex fr) (expOf ex) (lcOf ex fr) d k = true) :
     F64.roundDecimal false d k = some (bitsOf ex fr) := roundDecimal_of_inside ex fr d k hex hfr hm h
+
+open SJ.GoSem SJ.Generated SJ.GoFloatFmt in
+/-- **Source tie** (DESIGN §6.3). `appendFloat`, `appendFloatF`, `fmtF`, `min`, `max` (the float formatting glue of
+    `parsed_json.go` / the vendored `%f` formatter) are printed from /repo as syntax trees on every run. Their meaning
+    under `GoSem.exec` — the Inf/NaN test, `math.Abs`, the two float comparisons with 1e-6 and 1e21 and the test for zero,
+    the mantissa/exponent extraction with its denormal case, Ryu and `strconv.AppendFloat(…,'e',-1,64)` by contract
+    (shortest digits), the digit loops of `%f`, the in-place clean-up of `e-0X` — is `FloatFmt.appendFloat`, the function
+    `C18_roundtrip`, `C18_shortest_roundtrip`, `C18_fmtF_value` and `C18_fmtE_value` are about: for every destination buffer and every bit
+    pattern the Go code appends exactly the model's text and returns nil, or returns the nil slice and an error exactly
+    for Inf/NaN. `fuelOK` only bounds the loop budget of the interpreter (at most the number of digits written). -/
+theorem C18_format_follows_source (dst : Bytes) (bits : UInt64) (fuel : Nat) (tape : Array UInt64)
+    (hf : fuelOK fuel bits) :
+    (∀ b, FloatFmt.appendFloat bits = some b →
+       ∃ s, runFun goFuns goappendFloat fuel ⟨[("dst", .bytes dst), ("f", .u64 bits)], tape⟩ =
+         .ret s [.bytes (dst ++ b), .bool false] ∧ s.tape = tape) ∧
+    (FloatFmt.appendFloat bits = none →
+       ∃ s, runFun goFuns goappendFloat fuel ⟨[("dst", .bytes dst), ("f", .u64 bits)], tape⟩ =
+         .ret s [.bytes #[], .bool true] ∧ s.tape = tape) :=
+  go_floatfmt_source_tie dst bits fuel tape hf
 
 end SJ.Properties.C18
